@@ -22,8 +22,15 @@ static const char *cfg_name(int c) { return c == 0 ? "PRE-OPERATIONAL" : "OPERAT
 static void build_alphabet(void)
 {
     static const struct { uint16_t idx; uint8_t sub; uint32_t size; } EXTRA[] = { {0x2FFF, 0, 0}, {0x2030, 2, 0}, {0x1000, 0, 4}, {0x0000, 0, 0}, {0x1FFF, 0, 0} };
+    int small = mc_opt("small", 0);
     NEV = 0;
     for (int c = 0; c < 256; c++) {
+        if (small) {   /* representative command bytes: segments (t,n,c), block sequence numbers around the block size, every sub-command once */
+            static const uint8_t KEEP[] = { 0x00, 0x01, 0x02, 0x03, 0x04, 0x05, 0x08, 0x09, 0x0E, 0x0F, 0x10, 0x11, 0x18, 0x19, 0x1E, 0x1F, 0x20, 0x21, 0x22, 0x23, 0x2F, 0x30, 0x40, 0x41, 0x50,
+                0x60, 0x61, 0x70, 0x7F, 0x80, 0x81, 0x82, 0x83, 0x84, 0x90, 0xA0, 0xA1, 0xA2, 0xA3, 0xA4, 0xB0, 0xC0, 0xC1, 0xC2, 0xC5, 0xC6, 0xD9, 0xDD, 0xE0, 0xFF };
+            int keep = 0; for (unsigned k = 0; k < sizeof KEEP; k++) if (KEEP[k] == c) keep = 1;
+            if (!keep) continue;
+        }
         int isinit = ((c & 0xE0) == 0x20) || ((c & 0xE0) == 0x40) || ((c & 0xE1) == 0xC0) || ((c & 0xE3) == 0xA0);
         if (isinit) add((uint8_t)c, 0x2002, 0, 4);
         else add((uint8_t)c, 0x5A5A, 0x5A, 0x5A5A5A5A);          /* segments carry a uniform payload: content then depends on the length only */
@@ -31,6 +38,9 @@ static void build_alphabet(void)
     for (int t = 0; t < O_N + 5; t++) {
         uint16_t idx = t < O_N ? OBJ[t].idx : EXTRA[t - O_N].idx; uint8_t sub = t < O_N ? OBJ[t].sub : EXTRA[t - O_N].sub;
         uint32_t S = t < O_N ? OBJ[t].size : EXTRA[t - O_N].size;
+#if CO_SSDO_N > 1
+        if (idx == 0x2011 || idx == 0x2001) continue;            /* reserved for the second server: one object cannot serve two concurrent streams (single offset) */
+#endif
         add(0x40, idx, sub, 0);
         if (S >= 1 && S <= 4) add((uint8_t)(0x23 | ((4 - S) << 2)), idx, sub, 5);
         if (S >= 1 && S <  4) add((uint8_t)(0x23 | ((4 - S - 1) << 2)), idx, sub, 5);
@@ -43,17 +53,17 @@ static void build_alphabet(void)
         add(0xC2, idx, sub, S ? S : 4); add(0xC2, idx, sub, S + 1); add(0xC0, idx, sub, 0);
         add(0xA0, idx, sub, 1); add(0xA0, idx, sub, 2); add(0xA0, idx, sub, CO_SDO_BUF_SEG); add(0xA0, idx, sub, 127);
     }
-    add(0xA0, 0x2011, 0, 0); add(0xA0, 0x2011, 0, 128); add(0xA0, 0x2012, 0, 0x0100 | 3); add(0xA4, 0x2012, 0, 3);
+    add(0xA0, 0x2012, 0, 0); add(0xA0, 0x2012, 0, 128); add(0xA0, 0x2012, 0, 0x0100 | 3); add(0xA4, 0x2012, 0, 3);
     add(0x21, 0x2012, 0, 0); add(0x21, 0x2012, 0, 0xFFFFFFFF); add(0xC2, 0x2012, 0, 0); add(0xC2, 0x2012, 0, 0xFFFFFFFF); add(0xC6, 0x2012, 0, SDO_DS2);
     {   /* block acknowledges: A2 ackseq blksize */
         static const uint8_t ACK[] = { 0, 1, 2, 3, 4, CO_SDO_BUF_SEG, CO_SDO_BUF_SEG + 1, 0xFF }, BS[] = { 0, 1, 2, CO_SDO_BUF_SEG, 127, 128 };
         for (unsigned a = 0; a < sizeof ACK; a++) for (unsigned b = 0; b < sizeof BS; b++) add(0xA2, (uint16_t)(ACK[a] | (BS[b] << 8)), 0, 0);
     }
 #if CO_SSDO_N > 1
-    add_s(1, 0x40, 0x2012, 0, 0); add_s(1, 0x40, 0x2002, 0, 0); add_s(1, 0x60, 0, 0, 0); add_s(1, 0x70, 0, 0, 0); add_s(1, 0x80, 0, 0, 0);
-    add_s(1, 0x23, 0x2002, 0, 9); add_s(1, 0x21, 0x2011, 0, SDO_DS1); add_s(1, 0x00, 0x5A5A, 0x5A, 0x5A5A5A5A); add_s(1, 0x10, 0x5A5A, 0x5A, 0x5A5A5A5A);
-    add_s(1, 0x0B, 0x5A5A, 0x5A, 0x5A5A5A5A); add_s(1, 0xC2, 0x2011, 0, SDO_DS1); add_s(1, 0x01, 0x5B5B, 0x5B, 0x5B5B5B5B); add_s(1, 0x82, 0x5B5B, 0x5B, 0x5B5B5B5B);
-    add_s(1, 0xD1, 0, 0, 0); add_s(1, 0xA0, 0x2012, 0, 2); add_s(1, 0xA3, 0, 0, 0); add_s(1, 0xA2, 0x0202, 0, 0); add_s(1, 0xA2, 0x0201, 0, 0); add_s(1, 0xA1, 0, 0, 0);
+    add_s(1, 0x40, 0x2011, 0, 0); add_s(1, 0x40, 0x2001, 0, 0); add_s(1, 0x60, 0x5A5A, 0x5A, 0x5A5A5A5A); add_s(1, 0x70, 0x5A5A, 0x5A, 0x5A5A5A5A); add_s(1, 0x80, 0, 0, 0);
+    add_s(1, 0x2B, 0x2001, 0, 9); add_s(1, 0x21, 0x2011, 0, SDO_DS1); add_s(1, 0x00, 0x5A5A, 0x5A, 0x5A5A5A5A); add_s(1, 0x10, 0x5A5A, 0x5A, 0x5A5A5A5A);
+    add_s(1, 0x09, 0x5A5A, 0x5A, 0x5A5A5A5A); add_s(1, 0x19, 0x5A5A, 0x5A, 0x5A5A5A5A); add_s(1, 0xC2, 0x2011, 0, SDO_DS1); add_s(1, 0x01, 0x5A5A, 0x5A, 0x5A5A5A5A); add_s(1, 0x82, 0x5A5A, 0x5A, 0x5A5A5A5A);
+    add_s(1, 0xD1, 0, 0, 0); add_s(1, 0xA0, 0x2011, 0, 2); add_s(1, 0xA3, 0, 0, 0); add_s(1, 0xA2, 0x0202, 0, 0); add_s(1, 0xA2, 0x0201, 0, 0); add_s(1, 0xA1, 0, 0, 0);
 #endif
 }
 
@@ -79,8 +89,20 @@ static const char *ev_name(int e)
     return b;
 }
 
+/* "secondary" events: initiate requests to targets other than a covering few.  From idle every target is explored;
+ * while a transfer is open they all take the same path (latch, drop the old transfer, dispatch as from idle), so
+ * with option fewinit=1 only the covering targets are enabled there. */
+static int secondary(int e)
+{
+    uint16_t idx = (uint16_t)(EV[e][1] | (EV[e][2] << 8)); uint8_t c = EV[e][0];
+    int isinit = ((c & 0xE0) == 0x20) || ((c & 0xE0) == 0x40) || ((c & 0xE1) == 0xC0) || ((c & 0xE3) == 0xA0);
+    if (!isinit) return 0;
+    return !(idx == 0x2002 || idx == 0x2011 || idx == 0x2012 || idx == 0x2FFF || idx == 0x2022);
+}
+
 static int step(int e)
 {
+    if (EVSRV[e] == 0 && SM[0].st != S_IDLE && mc_opt("fewinit", 0) && secondary(e)) return MC_SKIP;
     sdo_request(EVSRV[e], EV[e]);
     (void)CONodeGetErr(&Node);
     sdo_content_reset();
